@@ -321,6 +321,8 @@ type caseRun struct {
 	calls []*callRec
 	info  []string
 	out   []string
+
+	skipped bool
 }
 
 func errClass(err error) string {
@@ -455,7 +457,13 @@ func (cr *caseRun) run() {
 	for _, s := range []string{"a", "b"} {
 		for _, t := range tb[s] {
 			if r, ok := t.(*tubes.Reliable); ok && r != nil {
-				cr.info = append(cr.info, fmt.Sprintf("final %s %s", tubeName(s, r), tubes.VerifStateNames[r.VerifState()]))
+				// the accessor takes the tube's lock: after a hang that lock may be held for ever
+				st, ok := guarded(func() string { return tubes.VerifStateNames[r.VerifState()] }, 10*time.Second)
+				if ok {
+					cr.info = append(cr.info, fmt.Sprintf("final %s %s", tubeName(s, r), st))
+				} else {
+					cr.info = append(cr.info, fmt.Sprintf("info final state of %s unreadable: its lock is held", tubeName(s, r)))
+				}
 			}
 		}
 	}
@@ -617,6 +625,7 @@ func run(in *bufio.Scanner, out *bufio.Writer) {
 	}
 	time.Sleep(10 * time.Millisecond)
 	base := runtime.NumGoroutine()
+	hungCases := 0
 	for i := 0; i < len(progs); i += batchSize {
 		j := min(i+batchSize, len(progs))
 		batch := make([]*caseRun, 0, j-i)
@@ -628,6 +637,11 @@ func run(in *bufio.Scanner, out *bufio.Writer) {
 			cr := &caseRun{p: p}
 			batch = append(batch, cr)
 			if p.bad || !strings.HasPrefix(p.header, "new") {
+				continue
+			}
+			if hungCases >= 3 {
+				// enough calls have failed to return: every further one costs a full watchdog
+				cr.skipped = true
 				continue
 			}
 			yieldSeed.Store(p.yseed)
@@ -647,9 +661,17 @@ func run(in *bufio.Scanner, out *bufio.Writer) {
 		}
 		anyHang := false
 		for _, cr := range batch {
+			h := false
 			for _, c := range cr.calls {
-				anyHang = anyHang || c.hung
+				h = h || c.hung
 			}
+			for _, l := range cr.info {
+				h = h || strings.HasSuffix(l, " hang")
+			}
+			if h {
+				hungCases++
+			}
+			anyHang = anyHang || h
 		}
 		trMu.Lock()
 		tr := append([]trEntry(nil), trLog...)
@@ -658,6 +680,12 @@ func run(in *bufio.Scanner, out *bufio.Writer) {
 			if cr.p.bad || !strings.HasPrefix(cr.p.header, "new") {
 				fmt.Fprintln(out, cr.p.header)
 				fmt.Fprintln(out, "bad-program")
+				continue
+			}
+			if cr.skipped {
+				fmt.Fprintln(out, cr.p.header)
+				fmt.Fprintln(out, "info skipped after 3 cases with calls that did not return")
+				fmt.Fprintln(out, "end")
 				continue
 			}
 			cr.render(tr)
